@@ -169,6 +169,13 @@ def parse_markup(s, void_without_slash=False):
                 raise MarkupError('unterminated comment at %d' % lt)
             i = end + 3
             continue
+        if s.startswith('<!', lt) or s.startswith('<?', lt):
+            # declaration / processing instruction (`<!DOCTYPE html>`): not an element
+            end = s.find('>', lt)
+            if end < 0:
+                raise MarkupError('unterminated declaration at %d' % lt)
+            i = end + 1
+            continue
         j = lt + 1
         closing = j < n and s[j] == '/'
         if closing:
